@@ -410,6 +410,20 @@ Proof.
   apply equivalent_spec in Q. destruct Q as (_ & Q). exact Q.
 Qed.
 
+(* the verified flag in EVERY reachable state, with the class spelled out: a label is verified exactly when a
+   label of its (exactly characterised) class was passed to set_verified - before or after the merges *)
+Theorem C06_verified_exact : forall pre post s rs a s' v,
+  Forall (fun o => o <> Connect) post ->
+  exec order init (pre ++ Connect :: post) = Some (s, rs) ->
+  is_verified s a = Some (s', v) ->
+  (v = true <-> exists b, marked (pre ++ Connect :: post) b /\ clos_refl_sym_trans Z (gen pre post) a b).
+Proof.
+  intros pre post s rs a s' v F E Q.
+  rewrite (C06_verified _ s rs a s' v E Q).
+  split; intros (b & M & S); exists b; (split; [exact M|]);
+    apply (exact_after_connect order order_In pre post s rs F E a b); exact S.
+Qed.
+
 End C06.
 
 (* non-vacuity: a one-way 3-cycle closed by connect_cycles, the verified flag
@@ -1301,6 +1315,19 @@ Proof.
     [vm_compute; reflexivity|reflexivity].
 Qed.
 
+(* covers C06_verified_exact on the stale history: 9 is marked after the one-way cycle 5 -> 9 -> 5 was recorded but
+   not yet detected: 5 is NOT verified (9 is not in its class), 9 is *)
+Example C06_verified_exact_nonvacuous :
+  (false = true <-> exists b, marked (a6_ops ++ Connect :: a6_stale) b /\ clos_refl_sym_trans Z (gen a6_ops a6_stale) 5 b) /\
+  (true = true <-> exists b, marked (a6_ops ++ Connect :: a6_stale) b /\ clos_refl_sym_trans Z (gen a6_ops a6_stale) 9 b).
+Proof.
+  split.
+  - eapply (C06_verified_exact isort isort_In a6_ops a6_stale a6_sS a6_rsS 5 _ false a6_stale_no_connect a6_execS).
+    vm_compute. reflexivity.
+  - eapply (C06_verified_exact isort isort_In a6_ops a6_stale a6_sS a6_rsS 9 _ true a6_stale_no_connect a6_execS).
+    vm_compute. reflexivity.
+Qed.
+
 (* covers C06_path_function: on the state after the neutral suffix, the path function from 3 to 8 *)
 Example C06_path_function_nonvacuous :
   fpathf isort a6_sN 3 8 = [3; 4; 2; 8] /\ epath (recorded (a6_ops ++ Connect :: a6_ns)) (fpathf isort a6_sN 3 8) /\
@@ -1381,3 +1408,4 @@ Print Assumptions C06_same_is_scc.
 Print Assumptions C06_repf_is_scc.
 Print Assumptions C06_verified_scc.
 Print Assumptions C06_path_function.
+Print Assumptions C06_verified_exact.
